@@ -380,6 +380,9 @@ def rule_join(ctx):
             for e in stores:
                 t = e.value.lin.single_term() if isinstance(e.value, Num) else None
                 okk = False
+                if isinstance(e.value, Num) and e.old is not None and e.value.lin == Lin.term(e.old):
+                    res.append((True, "the register keeps its own value on this path", fact_strs(e)))
+                    continue
                 if t is not None and t in w.P.minmax:
                     _, a, b = w.P.minmax[t]
                     oth = b if a == Lin.term(e.old) else a
